@@ -7,6 +7,7 @@ import (
 	"os"
 	"path/filepath"
 	"sync"
+	"time"
 
 	"golang.org/x/crypto/ssh/agent"
 )
@@ -52,8 +53,9 @@ type Proxy struct {
 
 	mu       sync.Mutex
 	script   map[int]Fault
-	n        int      // request frames received
-	rawLog   []uint64 // ids of the raw bodies received (0 = bytes that were never registered)
+	delays   map[int]time.Duration // request index -> how long the agent takes to answer it (it does answer)
+	n        int                   // request frames received
+	rawLog   []uint64              // ids of the raw bodies received (0 = bytes that were never registered)
 	raws     map[string]rawEnt
 	injected []byte // last injected reply body
 	alive    bool
@@ -96,6 +98,16 @@ func (p *Proxy) Stop() {
 	p.mu.Unlock()
 	p.backA.Close()
 	os.RemoveAll(p.Dir)
+}
+
+// SetDelay: the request with this index is answered only after d.
+func (p *Proxy) SetDelay(idx int, d time.Duration) {
+	p.mu.Lock()
+	if p.delays == nil {
+		p.delays = map[int]time.Duration{}
+	}
+	p.delays[idx] = d
+	p.mu.Unlock()
 }
 
 func (p *Proxy) SetFault(idx int, f Fault) {
@@ -149,7 +161,11 @@ func (p *Proxy) serve() {
 		idx := p.n
 		p.n++
 		f, faulted := p.script[idx]
+		delay := p.delays[idx]
 		p.mu.Unlock()
+		if delay > 0 {
+			time.Sleep(delay)
+		}
 
 		exec := !faulted || f.Exec
 		var reply []byte
